@@ -2,7 +2,56 @@
 # package of /repo) decide the property, with the bounds per tier.
 BS = "berty.tech/go-orbit-db/stores/basestore"
 
+KV = "berty.tech/go-orbit-db/stores/kvstore"
+DOC = "berty.tech/go-orbit-db/stores/documentstore"
+EL = "berty.tech/go-orbit-db/stores/eventlogstore"
+
 CHECKS = {
+    "C06": {
+        "groups": [{
+            "pkg": KV, "funcs": ["VerifC06Replay"],
+            "params": {"quick": {"N": 3}, "thorough": {"N": 4}},
+            "max_paths": {"quick": 60000, "thorough": 400000},
+            "timeout": {"quick": "10m", "thorough": "40m"},
+            "covers": {"VerifC06Replay": ["replayed"]},
+        }],
+        "assumptions": [
+            "listing of N operations in log order with symbolic 1-byte keys (any collision pattern), op kind PUT/DEL, value nil / empty / 1 symbolic byte",
+            "earlier index state = replay of an arbitrary sub-listing (models earlier merges of any subset)",
+            "store built by the real NewOrbitDBKeyValue/InitBaseStore over stub IPFS/bus/cache; the log handed to the index is a stub exposing Values()",
+            "encoding/json replaced by an idealised injective codec driven by the struct tags (omitempty honoured)",
+        ],
+        "outside": ["N beyond the bound", "keys longer than 1 byte / non-UTF-8 keys rewritten by real JSON", "the happens-before part is decided with the real ipfs-log in the C01 harnesses"],
+    },
+    "C07": {
+        "groups": [{
+            "pkg": DOC, "funcs": ["VerifC07Replay", "VerifC07Get", "VerifC07Query", "VerifC07Delete"],
+            "params": {"quick": {"N": 2, "M": 2, "K": 1}, "thorough": {"N": 3, "M": 3, "K": 2}},
+            "max_paths": {"quick": 60000, "thorough": 400000},
+            "timeout": {"quick": "10m", "thorough": "40m"},
+            "covers": {"VerifC07Replay": ["built"], "VerifC07Get": ["get"], "VerifC07Query": ["query"],
+                       "VerifC07Delete": ["delete-live", "delete-absent"]},
+        }],
+        "assumptions": [
+            "listing of N operations (PUT / DEL / PUTALL of two documents) with symbolic printable-ASCII keys without spaces, symbolic 1-byte document bodies; earlier index state from an arbitrary sub-listing",
+            "Get/Query explored over index states made of M single PUTs (they are functions of the index state only)",
+            "strings.ToLower/Contains/ReplaceAll replaced by byte-loop equivalents (ASCII-exact)",
+            "idealised injective JSON codec",
+        ],
+        "outside": ["search keys containing spaces (excluded by the property)", "non-ASCII keys", "N, M, key length beyond the bounds"],
+    },
+    "C08": {
+        "groups": [{
+            "pkg": EL, "funcs": ["VerifC08Window"],
+            "params": {"quick": {"N": 4}, "thorough": {"N": 6}},
+            "covers": {"VerifC08Window": ["window-computed"]},
+        }],
+        "assumptions": [
+            "listing of N entries with distinct hashes; one bound kind (none/GT/GTE/LT/LTE) at every position; Amount unset or ANY 64-bit integer (symbolic)",
+            "store built by the real NewOrbitDBEventLogStore/InitBaseStore over stubs; index fed through the real eventIndex.UpdateIndex",
+        ],
+        "outside": ["bound hashes not in the log (excluded by the property)", "two bounds at once", "N beyond the bound"],
+    },
     "C19": {
         "groups": [{
             "pkg": BS,
